@@ -746,41 +746,62 @@ def run(run: core.Run, tier: str):
               surrogate=(("tanh", dth) if an else ("scaled_identity", F(1))),
               key=dict(cls=cls, alpha=str(kw.get("alpha")), phase=phase), pre=(ys.ravel(), gs.ravel()))
       # binary(use_stochastic_rounding=True): in the training phase the carrier is f * round_through(x / f) with
-      # f = 2 * min(max|x|, 1) — one line per scale group; tensors with a unique arg-max +-2^k per group so that
-      # every float32 operation is exact (k <= 0: f differentiable; k = 1: clamped to 1)
+      # f = stop_gradient(2 * min(max|x|, 1)) — one line per scale group (channel of the last axis; the whole
+      # tensor for rank 1); the extreme elements are +-2^k so that every float32 operation is exact (k <= 0: 2*m
+      # depends on the input; k = 1: clamped to 1).  Every second group has its maximum attained TWICE (TF would
+      # split a max-gradient among ties), rank 3 included.  The gradient of EVERY element, the arg-max included,
+      # must be exactly 1 (tanh' of the carrier for alpha=None): a normaliser that carries a gradient is a violation.
+      # ALL-ZERO groups (a zeros-initialised bias, a dead channel): 2*m = 0, the code falls back to f = 1 (0c3be6f) —
+      # value and gradient must be finite, the gradient 1.
       for alpha in (None, 1.0, 0.5, "auto", "auto_po2"):
-        for rank2 in (False, True):
-          kexp = [int(k) for k in rng.permutation([-2, -1, 0, 1])[: (3 if rank2 else 1)]]
-          if not rank2 and phase == 1 and alpha in (1.0, None):
+        for shape_kind in ("rank1", "rank1_zero", "rank2", "rank3"):
+          ncol = {"rank1": 1, "rank1_zero": 1, "rank2": 4, "rank3": 2}[shape_kind]
+          nel = 12 if shape_kind == "rank3" else 10
+          kexp = [int(k) for k in rng.permutation([-2, -1, 0, 1])[:ncol]]
+          if shape_kind == "rank1" and phase == 1 and alpha in (1.0, None):
             kexp = [-1]
+          if shape_kind == "rank2":
+            kexp[int(rng.integers(0, 4))] = None
+          if shape_kind == "rank1_zero":
+            kexp = [None]
           cols = []
-          for k in kexp:
+          for ci, k in enumerate(kexp):
+            if k is None:
+              cols.append(np.zeros(nel))
+              continue
             mval = 2.0 ** k
             fval = 2.0 * min(mval, 1.0)
-            c = rng.integers(-63, 64, size=10) * (fval / 64.0)
+            c = rng.integers(-63, 64, size=nel) * (fval / 64.0)
             c = np.clip(c, -mval * 63 / 64, mval * 63 / 64)
             c[1] = 0.0
             c[0] = mval if rng.integers(0, 2) else -mval
+            if ci % 2 == 1 or (shape_kind == "rank1" and alpha in (0.5, "auto")):
+              c[3] = mval if rng.integers(0, 2) else -mval      # the maximum is attained twice
+              run.count("binary_sr_group_with_tied_maximum")
             cols.append(c)
           x2 = np.stack(cols, axis=1).astype(np.float32)
-          if not rank2:
+          if shape_kind in ("rank1", "rank1_zero"):
             x2 = x2[:, 0]
+          elif shape_kind == "rank3":
+            x2 = x2.reshape(3, 4, ncol)
           w = po2w(x2.shape)
           U = draws(x2.size).reshape(x2.shape)
           q = Q.binary(alpha=alpha, use_stochastic_rounding=True)
           ys, gs = measure(q, x2, w, phase=phase, U=U.ravel())
-          X = x2.reshape(len(x2), -1)
-          Y, G, W, UU = (a.reshape(len(x2), -1) for a in (ys, gs, w, U))
-          for j in range(X.shape[1]):
+          X = x2.reshape(-1, ncol)
+          Y, G, W, UU = (np.asarray(a).reshape(-1, ncol) for a in (ys, gs, w, U))
+          for j in range(ncol):
             xc, uc = X[:, j].astype(np.float64), UU[:, j].astype(np.float64)
             mval = float(np.max(np.abs(xc)))
             fval = 2.0 * min(mval, 1.0)
             if phase:
-              sx = xc / fval * 8.0
+              sx = xc / (fval if fval > 0 else 1.0) * 8.0
               fl = np.floor(sx)
               xr = (np.where(sx - fl < uc, fl, np.ceil(sx)) / 8.0 * fval).astype(np.float32)
             else:
               xr = xc.astype(np.float32)
+            # oracle inputs: tanh and tanh' at the CARRIER (the rounded tensor in training — recorded finding
+            # C06-binary-sr-train-tanh-at-rounded) for the model; tanh' at the input itself for the clause
             xt = tf.constant(xr)
             with tf.GradientTape() as tape:
               tape.watch(xt)
@@ -792,7 +813,8 @@ def run(run: core.Run, tier: str):
               th0 = tf.tanh(xt0)
             dth0 = np.asarray(tape.gradient(th0, xt0), dtype=np.float32)
             add("binary_sr", dict(alpha_none=alpha is None), None, X[:, j],
-                dict(phase=bool(phase), xqs=core.enc_list(Y[:, j]), ths=core.enc_list(np.asarray(th)),
+                dict(phase=bool(phase), xqs=core.enc_list(np.nan_to_num(Y[:, j], nan=0.0, posinf=0.0, neginf=0.0)),
+                     ths=core.enc_list(np.asarray(th)),
                      dths=core.enc_list(dth), us=core.enc_list(UU[:, j]), ws=core.enc_list(W[:, j]), f=core.rj(fval),
                      imax=(int(np.argmax(np.abs(xc))) if mval <= 1.0 else None)),
                 label="binary(alpha=%s,use_stochastic_rounding=True) on a %s tensor, channel %d [learning_phase=%d]"
@@ -800,7 +822,8 @@ def run(run: core.Run, tier: str):
                 surrogate=(("tanh", dth0) if alpha is None else ("scaled_identity", F(1))),
                 key=dict(cls="binary", alpha_none=alpha is None, stoch=True, phase=phase),
                 pre=(Y[:, j], G[:, j]))
-            run.count("binary_sr_phase%d_f_%s" % (phase, "differentiable" if mval <= 1.0 else "clamped"), len(xc))
+            run.count("binary_sr_phase%d_2m_%s" % (phase, "zero_group" if mval == 0 else
+                                                   "depends_on_input" if mval <= 1.0 else "clamped"), len(xc))
 
     # ---------------------------------------------------------------------------------------------------
     # stream `slopes`: every legal negative_slope (0, 2^-k, 1, 2, 4 — the constructors only require a power of
@@ -1128,6 +1151,10 @@ def run(run: core.Run, tier: str):
       run.case((m["label"], float(x)))
       run.compared += 1
       mv, mt = core.unrj(d[0]), core.unrj(d[1])
+      if not (np.isfinite(float(y)) and np.isfinite(float(g))):
+        # the model is total over the rationals: a NaN / inf of the real code never agrees with it
+        bad.append((float(x), [str(y), str(g)], [float(mv), float(mt)]))
+        continue
       fy, fg = F(float(y)), F(float(g))
       okv = (fy == mv)
       okt = (fg == mt)
@@ -1135,8 +1162,6 @@ def run(run: core.Run, tier: str):
         # oracle-input device: tanh' / sigmoid' products are float32 roundings of the exact product
         okt = okt or abs(fg - mt) <= abs(mt) * F(1, 2 ** 21) + F(1, 2 ** 40)
         okv = okv or m["op"] in ("binter", "binary_sr") and abs(fy - mv) <= abs(mv) * F(1, 2 ** 22)
-        # binary_sr: the arg-max element's gradient is a float32 SUM over the scale group (cancellation)
-        okt = okt or m["op"] == "binary_sr" and abs(fg - mt) <= F(1, 2 ** 16)
       if not (okv and okt):
         bad.append((float(x), [float(y), float(g)], [float(mv), float(mt)]))
     if bad:
@@ -1149,9 +1174,11 @@ def run(run: core.Run, tier: str):
       continue
     kind, par = sur
     all_zero = not any(float(g) != 0.0 for g in gs)
-    if not np.all(np.isfinite(np.asarray(gs, dtype=np.float64))):
-      run.violate("finite", dict(m["key"], kind=kind), {"config": m["label"], "note": "non-finite gradient"},
-                  mirrored=mirrored)
+    if not (np.all(np.isfinite(np.asarray(gs, dtype=np.float64))) and np.all(np.isfinite(np.asarray(ys, dtype=np.float64)))):
+      nf = [i for i in range(len(xs)) if not (np.isfinite(float(gs[i])) and np.isfinite(float(ys[i])))][0]
+      run.violate("finite", dict(m["key"], kind=kind),
+                  {"config": m["label"], "note": "non-finite gradient or value", "x": float(xs[nf]),
+                   "value": str(ys[nf]), "grad": str(gs[nf])}, mirrored=mirrored)
       continue
     unclipped = 0
     for i, (x, g) in enumerate(zip(xs, gs)):
